@@ -591,10 +591,11 @@ for t0, tau, tend in ((0.0, 0.25, 1.0), (2.0, 0.1, 2.5), (-1.0, 0.5, 0.25)):
             if (i == 0) != (Fx is None): bad.append('%s driver: cached F at step %d' % (nm, i)); break
             if i > 0 and float(Fx[0]) != float(i): bad.append('%s driver: cached F at step %d is not the one returned for the current state' % (nm, i)); break
 # adaptive driver: acceptance rule and the cached right-hand side after rejected steps
-for pattern in ([0.5, 2.0, 0.5, 0.5], [3.0, 3.0, 0.2, 0.9, 1.5, 0.3], [0.1, 0.1, 0.1]):
+for pattern in ([0.5, 2.0, 0.5, 0.5], [3.0, 0.2, 0.9, 0.3], [0.1, 0.1, 0.1]):     # (net step-size growth per cycle, so every run terminates)
     calls = []; tol = 1e-2
     def stepper(M, F, J, x, tau_, data, Fx=None):
         r = pattern[len(calls) % len(pattern)]
+        if len(calls) > 2000: raise RuntimeError('replay stepper called too often')
         xn = x + tau_; d = tol + tol * np.abs(x); xh = xn + r * d * np.sqrt(len(x))
         tag = np.array([100.0 + len(calls)])
         calls.append({'x': x.copy(), 'Fx': Fx, 'r': r, 'tag': tag, 'xn': xn})
